@@ -454,8 +454,8 @@ def buffer_type(ctx, F, fbt):
         for si, st in enumerate(b.stmts(bb)):
             if st["k"] == "assign" and st["rv"]["k"] == "aggr" and st["rv"].get("adt_name") == "Reader":
                 v = N(A.tb.rvalue(st["rv"], (bb, si), st))
-                ok_rd = v[2][0] == ("ref", fld(me, tail_i)) and v[2][1] == ("c", 0)
-    ctx.check(ok_rd or any(r[0] == "aggr" and r[2][0] == ("ref", fld(me, tail_i)) and r[2][1] == ("c", 0) for r in rd), "G6", "buffer_type:reader",
+                ok_rd = len(v[2]) >= 2 and v[2][0] == ("ref", fld(me, tail_i)) and v[2][1] == ("c", 0)
+    ctx.check(ok_rd or any(r[0] == "aggr" and len(r[2]) >= 2 and r[2][0] == ("ref", fld(me, tail_i)) and r[2][1] == ("c", 0) for r in rd), "G6", "buffer_type:reader",
               "the colour information is read by a Reader starting at offset 0 of the variable part (tag offset 32)", i[0].get("span", ""), how="Reader{buffer: &self.buffer, off: 0}", why=str(rd)[:200])
     # Reader primitives
     r8 = F.find(impl_self_name="Reader", name="read_next_u8")
